@@ -52,7 +52,7 @@ HASHSEEDS = ["0", "1", "2", "12345"]
 
 
 def budget(tier):
-    return int(os.environ.get("VERIF_BUDGET", 0)) or {"quick": 100, "thorough": 2400}[tier]
+    return int(os.environ.get("VERIF_BUDGET", 0)) or {"quick": 80, "thorough": 2400}[tier]
 
 
 # ---------------------------------------------------------------- generation (pure, no pharmpy import)
@@ -296,6 +296,18 @@ def hashseed_witness_spec():
     return spec
 
 
+def gen_subs_spec(rng):
+    """Seeded variant of the set-order witness: 2-4 of the 5 compartments carry an AMT dose (they change under
+    subs AMT->DOSE), the others do not; relabelling must not depend on the interpreter's hash seed."""
+    spec = hashseed_witness_spec()
+    dosed = set(rng.sample(range(5), rng.randint(2, 4)))
+    for i, c in enumerate(spec["comps"]):
+        c["doses"] = [["bolus", "AMT", 1]] if i in dosed else []
+        c["lag"] = rng.choice(["0", "0", "AMT/100"])
+    spec["order"] = rng.sample(range(5), 5)
+    return spec
+
+
 def f4_witness_spec():
     comps = [{"name": "CENTRAL", "doses": [["bolus", "AMT", 1]], "input": "0", "lag": "0", "bio": "1"},
              {"name": "PERI1", "doses": [], "input": "0", "lag": "0", "bio": "1"}]
@@ -327,6 +339,7 @@ def gen_cases(rng, n, tier):
                 specs.append(gen_model_spec(rng))
             for sp in specs:
                 sp["derive"] = rng.sample(DERIVE_OPS, 3)
+            specs.append(gen_subs_spec(rng))
             out.append({"kind": "procs", "specs": specs, "seed": seed})
         elif i < n_procs + n_pheno:
             out.append({"kind": "model", "spec": gen_pheno_spec(rng), "seed": seed})
